@@ -377,13 +377,19 @@ TRACE_CFG = ("CONSTANTS\n  Dev_StopOutsidePeriod = FALSE\n  Dev_DropHundredths =
 class Reporter:
     """at most two replay files per distinct (monitor, signature); every occurrence is counted"""
 
-    def __init__(self, chk):
+    def __init__(self, chk, dry=False):
         self.chk = chk
         self.counts = collections.Counter()
+        self.dry = dry              # replay mode: report, do not write further replay files
 
     def violation(self, monitor, sig, detail, replay):
         key = monitor + " " + json.dumps(sig, sort_keys=True)
         self.counts[key] += 1
+        if self.dry:
+            if self.counts[key] == 1:
+                print("REPRODUCED %s %s" % (monitor, json.dumps(sig, sort_keys=True)))
+                print("  " + json.dumps({k: v for k, v in detail.items() if k != "cfg"}, default=str)[:900])
+            return
         s = dict(sig, monitor=monitor)
         known = any(sig_matches(f, PID, s) for f in self.chk.findings)
         if known or self.counts[key] <= 2:
@@ -786,7 +792,8 @@ def replay(path):
     body = json.load(open(path))
     rp = body["replay"]
     chk = Check(PID, "quick", body.get("seed", 0))
-    rep = Reporter(chk)
+    rep = Reporter(chk, dry=True)
+    print("replaying %s %s" % (body.get("monitor"), json.dumps(body.get("sig"))))
     if rp["kind"] == "matcher":
         rows = calendar_rows(chk, [rp["yo"]], 300)
         for yo, mo, dim, pats in rows:
@@ -811,7 +818,7 @@ def replay(path):
         for d in rec["days"]:
             print(json.dumps(d)[:800])
         v = judge(chk, rep, [rec], "replay")
-        print("verdict:", v[1]["fails"])
+        print("verdict:", sorted(v[1]["fails"]))
     else:
         recs, ids = [], [0]
         st = add_run(recs, ids, rp["cfg"], rp["t0"], rp["end"], rp.get("dtype", "Real"), "replay")
@@ -819,5 +826,7 @@ def replay(path):
         for f in recs[0]["fires"][-6:]:
             print(json.dumps(f))
         v = judge(chk, rep, recs, "replay")
-        print("verdict:", v[1]["fails"])
-    return chk.finish()
+        print("verdict:", sorted(v[1]["fails"]))
+    n = sum(rep.counts.values())
+    print("%s replay: %d monitor failure(s) reproduced" % (PID, n))
+    return 1 if n else 0
